@@ -18,7 +18,7 @@ func init() {
 	Register(&Spec{
 		ID:        "C02",
 		Technique: "runtime monitoring: render-then-parse monitor — abstract body trees are rendered in many layouts, parsed, and read back through Content / PartialContent / JustAttributes and compared with the tree that was rendered",
-		Rule: "each case is an abstract body tree (attributes with literal/constant values incl. keyword-like, dashed and non-ASCII names; blocks with 0-3 labels over the full label alphabet, nesting to depth 4, one-line and empty blocks) rendered canonically and in 3 random layouts (indentation, blank lines, #, // and /* */ comments before/after/inside items and inside block headers, bare vs quoted labels with every escape form, LF/CRLF, missing final newline, BOM); every rendering must parse without errors to exactly the tree; 1 case in 6 duplicates an attribute name in one body and must be rejected in every rendering; " +
+		Rule: "each case is an abstract body tree (attributes with literal/constant values incl. keyword-like, dashed and non-ASCII names; blocks with 0-3 labels over the full label alphabet, nesting to depth 4, one-line and empty blocks) rendered canonically and in 3 random layouts (indentation, blank lines, #, // and /* */ comments before/after/inside items and inside block headers, bare vs quoted labels with every escape form, LF/CRLF, missing final newline, BOM); every rendering must parse without errors to exactly the tree; 1 case in 6 duplicates an attribute name in one body and must be rejected in every rendering; 1 case in 150 adds 150-450 sibling one-line blocks to one body (wide rather than deep); " +
 			"non-trivial = the tree has >= 3 items and >= 1 block; distinct by canonical rendering",
 		Assumptions: []string{"attribute values are literals and constant constructors whose expected value is built alongside the AST", "label strings are compared after NFC normalisation"},
 		Quick:       Plan{Batches: 16, PerBatch: 1200, MinNonTrivial: 6000},
